@@ -206,6 +206,18 @@ func genC19(r *rand.Rand, t *Trace, thorough bool) {
 			ids[i] = uint32(1 + r.Intn(idRange))
 			scs[i] = rndScore32(r, special)
 		}
+		if it%3 == 1 && n >= 2 {
+			// near ties: scores one or a few units in the last place apart (or 1e-7 apart near zero) are NOT
+			// ties -- the better one comes first whatever the ids are
+			base := []float32{0.5, 1, 3e-7, 100, 0.1}[r.Intn(5)]
+			for i := 0; i < n; i++ {
+				scs[i] = math.Float32frombits(math.Float32bits(base) + uint32(r.Intn(4)))
+				if base < 1e-6 {
+					scs[i] = base + float32(r.Intn(4))*1e-7
+				}
+			}
+			t.Stat("agg.near_ties")
+		}
 		dup := false
 		seen := map[uint32]bool{}
 		for _, id := range ids {
